@@ -337,6 +337,9 @@ func ruleA13(c *Ctx) {
 				}
 				key := fmt.Sprintf("%s|%s.(%s)#%d", shortName(f), xname, types.TypeString(ta.AssertedType, func(p *types.Package) string { return p.Name() }), per)
 				why, ok := assertionCovered(f, ta, b)
+				if !ok {
+					why, ok = allElementsFlag(f, ta, b)
+				}
 				if reason, frozen := confirmedPanicFree[strings.SplitN("A13|"+key, "#", 2)[0]]; !ok && frozen {
 					why, ok = "confirmed by reading: "+reason, true
 				}
@@ -692,7 +695,6 @@ var confirmedPanicFree = map[string]string{
 	"V13|internal/codegen.generateLogicalCode|operands[immIndex]":         "operand position from the matched table row (immediate)",
 	"V13|internal/codegen.handleIMUL|params.Operands[operandIndex]":       "operand position from the matched table row, upper bound tested; Atoi of `#k` text is never negative for table rows",
 
-	"A13|(*internal/ast.MultExp).Eval|evalTailExps[i].(*ast.NumberExp)": "every element of evalTailExps is tested with a comma-ok assertion in the preceding loop, which clears allTailsAreNumbers on the first failure; the forced assertion runs only under `headIsNum && allTailsAreNumbers` (a loop invariant, not a dominating test)",
 }
 
 // ---------------------------------------------------------------------------------------
@@ -1132,4 +1134,117 @@ func sliceExprCovered(f *ssa.Function, sl *ssa.Slice, blk *ssa.BasicBlock) (stri
 		return need(hi)
 	}
 	return "", false
+}
+
+
+// allElementsFlag proves `S[i].(T)` safe from an "all elements are T" flag: a boolean that starts
+// true, is only ever lowered to false — on the not-ok branch of a comma-ok assertion to T of the
+// value stored into S[j] in an earlier loop — and is tested (true) on every way to the assertion.
+func allElementsFlag(f *ssa.Function, ta *ssa.TypeAssert, blk *ssa.BasicBlock) (string, bool) {
+	load, ok := ta.X.(*ssa.UnOp)
+	if !ok || load.Op != token.MUL {
+		return "", false
+	}
+	ia, ok := load.X.(*ssa.IndexAddr)
+	if !ok {
+		return "", false
+	}
+	S := ia.X
+	// comma-ok assertions to T of values that are stored into S[·] (or loaded from it)
+	var oks []*ssa.Extract
+	for _, b := range f.Blocks {
+		for _, in := range b.Instrs {
+			o, ok := in.(*ssa.TypeAssert)
+			if !ok || !o.CommaOk || !types.Identical(o.AssertedType, ta.AssertedType) {
+				continue
+			}
+			related := false
+			for _, r := range *o.X.Referrers() {
+				if st, ok := r.(*ssa.Store); ok && st.Val == o.X {
+					if sia, ok := st.Addr.(*ssa.IndexAddr); ok && sia.X == S {
+						related = true
+					}
+				}
+			}
+			if l2, ok := o.X.(*ssa.UnOp); ok && l2.Op == token.MUL {
+				if ia2, ok := l2.X.(*ssa.IndexAddr); ok && ia2.X == S {
+					related = true
+				}
+			}
+			if !related {
+				continue
+			}
+			for _, r := range *o.Referrers() {
+				if ex, ok := r.(*ssa.Extract); ok && ex.Index == 1 {
+					oks = append(oks, ex)
+				}
+			}
+		}
+	}
+	if len(oks) == 0 {
+		return "", false
+	}
+	// candidate flags: conditions of Ifs whose true edge lies on every way to blk
+	for _, b := range f.Blocks {
+		iff, ok := b.Instrs[len(b.Instrs)-1].(*ssa.If)
+		if !ok || !edgesDominate(f, []cfgEdge{{b, 0}}, blk) {
+			continue
+		}
+		L, ok := iff.Cond.(*ssa.Phi)
+		if !ok {
+			continue
+		}
+		if monotoneAllFlag(L, oks) {
+			return "guarded by a flag that is lowered whenever an element of the slice fails the same assertion (all-elements invariant)", true
+		}
+	}
+	return "", false
+}
+
+func monotoneAllFlag(L *ssa.Phi, oks []*ssa.Extract) bool {
+	isConst := func(v ssa.Value, s string) bool {
+		k, ok := v.(*ssa.Const)
+		return ok && k.Value != nil && k.Value.String() == s
+	}
+	notOkSide := func(pred, phiBlock *ssa.BasicBlock) bool {
+		for _, okv := range oks {
+			for _, r := range *okv.Referrers() {
+				if iff, ok := r.(*ssa.If); ok {
+					nf := iff.Block().Succs[1]
+					if nf == pred || nf.Dominates(pred) || (nf == phiBlock && pred == iff.Block()) {
+						return true
+					}
+				}
+			}
+		}
+		return false
+	}
+	sawTrue, lowered := false, false
+	seen := map[*ssa.Phi]bool{}
+	var walk func(P *ssa.Phi, top bool) bool
+	walk = func(P *ssa.Phi, top bool) bool {
+		if seen[P] {
+			return true
+		}
+		seen[P] = true
+		for i, e := range P.Edges {
+			switch {
+			case e == ssa.Value(L):
+			case isConst(e, "true") && top:
+				sawTrue = true
+			case isConst(e, "false"):
+				if !notOkSide(P.Block().Preds[i], P.Block()) {
+					return false
+				}
+				lowered = true
+			default:
+				N, ok := e.(*ssa.Phi)
+				if !ok || !walk(N, false) {
+					return false
+				}
+			}
+		}
+		return true
+	}
+	return walk(L, true) && sawTrue && lowered
 }
